@@ -112,6 +112,7 @@ func (c *RunnerCloserManager) AddCloser(closers ...any) error {
 		return ErrManagerAlreadyClosed
 	}
 
+	verifPoint("addcloser.checked")
 	c.mngr.lock.Lock()
 	defer c.mngr.lock.Unlock()
 
